@@ -31,7 +31,7 @@ def contig_jobs(tier, prop):
 
 def dtype_jobs(tier, prop):
     return [Job('%s/ncmpii_dtype_decode/subarray_ndim%d' % (prop, nd), prop, ['src/drivers/common/dtype_decode.c', 'src/drivers/common/error_mpi2nc.c'], 'C01_dtype.c', enforce='ncmpii_dtype_decode', enforce_rec=True,
-                defines=['-DNDIM=%d' % nd], tu_defines=['-include', '/verif/stubs/noprintf.h'], canaries=['noncontiguous', 'several_elements'], unwind=12, kind='bounded', timeout=300,
+                defines=['-DNDIM=%d' % nd], tu_defines=['-include', '/verif/stubs/noprintf.h'], canaries=['noncontiguous', 'several_elements'], unwind=12, kind='bounded', timeout=900, solver=['--sat-solver', 'cadical'],
                 bound='MPI_Type_create_subarray over MPI_INT with %d dimensions, sizes 1..1000, subsizes and starts symbolic, C or Fortran order' % nd,
                 assumptions=['ncmpii_dtype_decode: MPI_Type_get_envelope / get_contents / size / free are harness stubs describing one subarray type over MPI_INT; the recursive call on the element type is assumed to satisfy the contract being enforced (--enforce-contract-rec)'])
             for nd in ((2,) if tier == 'quick' else (1, 2, 3))]
